@@ -137,6 +137,15 @@ def gen_stream(rng, long=False):
             fr = fr[:60].ljust(60, b"\0")
         wire = len(fr) + rng.choice([0, 0, 10, 1000])
         recs.append((rng.getrandbits(31), rng.randrange(1000000), fr, None, wire))
+    if not long and rng.random() < 0.15:
+        # frames larger than the stdout buffer with line-feed bytes at odd places
+        for k in range(rng.randint(1, 4)):
+            sz = rng.choice([1100, 1400, 3000, 9000])
+            body = bytearray((j * 13 + k) % 240 + 11 for j in range(sz))
+            for _ in range(rng.randint(1, 3)):
+                body[rng.choice([0, 5, 20, 34, sz // 2, sz - 1030, sz - 1])] = 10
+            fr, _ = pkt.rand_frame(rng, well_formed=True)
+            recs.insert(rng.randint(0, len(recs)), (10 if rng.random() < 0.3 else rng.getrandbits(31), rng.randrange(1000000), fr[:34] + bytes(body), None, None))
     maxcap = max([len(r[2]) for r in recs] + [0])
     hdr = dict(magic=rng.choice([pkt.MAGIC_US, pkt.MAGIC_NS]), major=rng.choice([2, 2, 7]), minor=rng.choice([4, 4, 0]),
                thiszone=rng.choice([0, 0, 7200, -3600]), sigfigs=rng.choice([0, 0, 6]), snaplen=rng.choice([max(maxcap, 1), 65535, 262144]),
@@ -240,5 +249,38 @@ def run(chk):
             if bad:
                 chk.violation("filter|" + sig, bad, {"src": src, "n_packets": len(recs), "header": hdr, "silent": silent,
                                                    "stderr": err[-300:], "input_hex": data.hex()[:2000]})
+        # ---- assignments to the record fields of $0 between selecting filters: each selection writes the packet as it is then
+        TEMPL = [
+            ("@ true\n@ { ($0).usec = 5; }\n@ true\n",
+             lambda k, r: [r, (r[0], 5, r[2], r[3], r[4])]),
+            ("@ true\n@ NP % 2 == 0 { ($0).sec = 7; ($0).usec = NP; }\n@ true\n@ { ($0).wirelen = 77; }\n@ true\n",
+             lambda k, r: [r, ((7, k) if k % 2 == 0 else (r[0], r[1])) + (r[2], r[3], r[4]), ((7, k) if k % 2 == 0 else (r[0], r[1])) + (r[2], 77, r[4])]),
+            ("@ { ($0).sec = 1; }\n@ true\n@ { ($0).sec = 2; }\n@ true\n@ { ($0).sec = 3; }\n@ true\n",
+             lambda k, r: [(1,) + r[1:], (2,) + r[1:], (3,) + r[1:]]),
+            ("@ true\n@ PL >= 14 { ($0).usec = 9; ($1).src = \"02:00:00:00:00:01\"; }\n@ true\n",
+             lambda k, r: [r, (r[0], 9, r[2], r[3], (r[4][:6] + pkt.mac_bytes(MAC_NEW) + r[4][12:])) if r[2] >= 14 else r]),
+        ]
+        for ti, (prog, model_fn) in enumerate(TEMPL * (2 if quick else 40)):
+            recs, hdr = gen_stream(rng)
+            data = pkt.pcap_file(recs, **hdr)
+            with open(path, "w") as f:
+                f.write(prog)
+            rr = core.run_binary([path], stdin_data=data, release=(ti % 2 == 1), timeout=60)
+            if rr["timeout"]:
+                chk.inconc("timeout")
+                continue
+            chk.observed(("record-fields", ti % len(TEMPL), min(len(recs), 9)))
+            if core.crashed(rr):
+                chk.violation("filter-crash|record-fields", "filter program crashes the interpreter", {"src": prog, "stderr": rr["err"].decode("utf-8", "replace")[-300:]})
+                continue
+            want = []
+            for k, r in enumerate(recs):
+                base = (r[0], r[1], len(r[2]), r[4] if r[4] is not None else len(r[2]), r[2])
+                want += model_fn(k + 1, base)
+            h2, recs2, rest = pkt.parse_pcap(rr["out"])
+            if h2 is None or recs2 != want or rest:
+                k_ = next((i for i in range(min(len(recs2), len(want))) if recs2[i] != want[i]), min(len(recs2), len(want)))
+                chk.violation("filter|record-fields|%d" % (ti % len(TEMPL)), "program %r on %d packets: output holds %d records, expected %d; first difference at output record %d (stderr %r)" % (
+                    prog, len(recs), len(recs2), len(want), k_, rr["err"][-120:]), {"src": prog, "n_packets": len(recs)})
     finally:
         shutil.rmtree(work, ignore_errors=True)
